@@ -35,7 +35,7 @@ def run(ck, facts, tier):
             ck.violation(R, "fresh_subst:one-variable-per-binder", fs.where(), "fresh_subst must create exactly one variable per binder, in order")
     tg = need_body(ck, facts, R, "<chalk_ir::WithKind as chalk_solve::infer::ParameterEnaVariableExt>::to_generic_arg")
     if tg:
-        ms = enum_matches(tg.thir, "chalk_ir::VariableKind")
+        ms = enum_matches(facts.thir(tg.key), "chalk_ir::VariableKind")
         want = {"Ty": "to_ty_with_kind", "Lifetime": "to_lifetime", "Const": "to_const"}
         if len(ms) != 1:
             ck.violation(R, "to_generic_arg:match", tg.where(), "expected one match on VariableKind")
@@ -183,12 +183,16 @@ def run(ck, facts, tier):
         b = need_body(ck, facts, R, OCC + "::try_fold_inference_" + kind)
         if not b:
             continue
-        binds = [c for t in thir_all(facts, b) for c in calls(t, "unify_var_value")]
+        from props.c14 import promotions
+        from kit import params_of_type
+        proms = promotions(facts, b)                      # direct, or through an inherent OccursCheck helper (one level)
+        visited = params_of_type(b, "InferenceVar") or {"var"}
         inst = "try_fold_inference_%s:promotes-visited-variable" % kind
-        if not binds:
-            ck.violation(R, "missing-anchor:" + inst, b.where(), "no promotion found in the callback (moved into a helper? re-anchor the rule)")
+        if not proms:
+            ck.violation(R, "missing-anchor:" + inst, b.where(), "no promotion found in the callback (re-anchor the rule)")
             continue
-        bad = [c for c in binds if not (len(c["args"]) > 1 and var_name(peel(c["args"][1])) == "var")]
+        binds = [p_["call"] for p_ in proms]
+        bad = [p_["call"] for p_ in proms if not (p_["var"] is not None and var_name(peel(p_["var"])) in visited)]
         if bad:
             ck.violation(R, inst, b.where(bad[0].get("ln")), "the promotion binds something other than the visited variable `var`")
         else:
